@@ -127,36 +127,39 @@ def completeUri (T : Tables) (rest : Text) : List Text → Option Text
       | some rem => some (consumed (rest ++ e) rem)
       | none => completeUri T rest es
 
-def finish (T : Tables) (cfg : Cfg) (st : St) (name0 : String) (found0 rem : Text) : Res :=
-  let nf : String × Text :=
-    if cfg.fullsheet then
-      if name0 == "INVALID" && rem.isEmpty then ("STRING", found0 ++ found0.take 1)
-      else if name0 == "FUNCTION" && normalize T (unicodeSub T found0) == [117, 114, 108, 40] then
-        match completeUri T st.rest uriEnds with
-        | some u => ("URI", u)
-        | none => (name0, found0)
-      else (name0, found0)
+/-- full-sheet completion of INVALID → STRING and `url(` FUNCTION → URI -/
+def finishName (T : Tables) (cfg : Cfg) (st : St) (name0 : String) (found0 rem : Text) : String × Text :=
+  if cfg.fullsheet then
+    if name0 == "INVALID" && rem.isEmpty then ("STRING", found0 ++ found0.take 1)
+    else if name0 == "FUNCTION" && normalize T (unicodeSub T found0) == [117, 114, 108, 40] then
+      match completeUri T st.rest uriEnds with
+      | some u => ("URI", u)
+      | none => (name0, found0)
     else (name0, found0)
-  let name := nf.1
-  let found := nf.2
-  let nv : String × Text × Text :=
-    if T.escTypes.contains name then
-      let v := unicodeSub T found
-      (name, found, if name == "STRING" || name == "INVALID" then cleanString T v else v)
-    else if name == "ATKEYWORD" then
-      match lookupKw T.atkeywords (normalize T (unicodeSub T found)) with
-      | some sym => (sym, found, found)
-      | none =>
-        if found == [64, 99, 104, 97, 114, 115, 101, 116] && hasAt (st.rest.drop found.length) [32]
-        then ("CHARSET_SYM", found ++ [32], found ++ [32])
-        else ("ATKEYWORD", found, found)
-    else (name, found, found)
-  let name := nv.1
-  let found := nv.2.1
-  let value := nv.2.2
-  { emit := if cfg.doComments || name != "COMMENT" then some ⟨name, value, st.line, st.col⟩ else none
-    raw := found
-    st := advance st found }
+  else (name0, found0)
+
+def atCharset : Text := [64, 99, 104, 97, 114, 115, 101, 116]
+
+/-- value computation and at-keyword lookup: (final name, final found, value) -/
+def finishVal (T : Tables) (st : St) (name : String) (found : Text) : String × Text × Text :=
+  if T.escTypes.contains name then
+    let v := unicodeSub T found
+    (name, found, if name == "STRING" || name == "INVALID" then cleanString T v else v)
+  else if name == "ATKEYWORD" then
+    match lookupKw T.atkeywords (normalize T (unicodeSub T found)) with
+    | some sym => (sym, found, found)
+    | none =>
+      if found == atCharset && hasAt (st.rest.drop found.length) [32]
+      then ("CHARSET_SYM", found ++ [32], found ++ [32])
+      else ("ATKEYWORD", found, found)
+  else (name, found, found)
+
+def finish (T : Tables) (cfg : Cfg) (st : St) (name0 : String) (found0 rem : Text) : Res :=
+  let nf := finishName T cfg st name0 found0 rem
+  let nv := finishVal T st nf.1 nf.2
+  { emit := if cfg.doComments || nv.1 != "COMMENT" then some ⟨nv.1, nv.2.2, st.line, st.col⟩ else none
+    raw := nv.2.1
+    st := advance st nv.2.1 }
 
 /-- the `for name, matcher in productions` loop at one position -/
 def tryProds (T : Tables) (cfg : Cfg) (st : St) : List Prod → Option Res
@@ -213,16 +216,18 @@ def prelude (T : Tables) (s : Text) : List (Tok × Text) × St :=
 inductive LoopEnd | done | stuck | fuel
   deriving Repr, DecidableEq
 
-/-- the main loop; emits (token, raw) pairs (raw only for emitted tokens is kept separately) -/
-def loop (T : Tables) (cfg : Cfg) : Nat → St → List (Option Tok × Text) → List (Option Tok × Text) × St × LoopEnd
-  | 0, st, acc => (acc.reverse, st, if st.rest.isEmpty then .done else .fuel)
-  | n+1, st, acc =>
+/-- the main loop: (token if emitted, raw match) per iteration, final state, how it ended -/
+def loop (T : Tables) (cfg : Cfg) : Nat → St → List (Option Tok × Text) × St × LoopEnd
+  | 0, st => ([], st, if st.rest.isEmpty then .done else .fuel)
+  | n+1, st =>
     match st.rest with
-    | [] => (acc.reverse, st, .done)
+    | [] => ([], st, .done)
     | _ :: _ =>
       match step T cfg st with
-      | none => (acc.reverse, st, .stuck)
-      | some r => loop T cfg n r.st ((r.emit, r.raw) :: acc)
+      | none => ([], st, .stuck)
+      | some r =>
+        let o := loop T cfg n r.st
+        ((r.emit, r.raw) :: o.1, o.2.1, o.2.2)
 
 structure Result where
   items : List (Option Tok × Text)   -- every match in order: token (if emitted) and its raw text
@@ -235,7 +240,7 @@ def Result.raws (r : Result) : List Text := r.items.map (·.2)
 
 def tokenize (T : Tables) (cfg : Cfg) (s : Text) : Result :=
   let pre := prelude T s
-  let out := loop T cfg (pre.2.rest.length + 1) pre.2 []
+  let out := loop T cfg (pre.2.rest.length + 1) pre.2
   { items := pre.1.map (fun p => (some p.1, p.2)) ++ out.1
     eof := if cfg.fullsheet then some ⟨"EOF", [], out.2.1.line, out.2.1.col⟩ else none
     endKind := out.2.2 }
